@@ -305,9 +305,9 @@ def small_model(ob, entry_args, timeout_ms=5000):
             for x in v.__dict__["_f"].values():
                 if isinstance(x, SSeq) and not isinstance(x.length, int):
                     lens.append(x.len_e())
-    for bound in (4, 8, 16, 64):
+    for bound in (6, 24):
         s = z3.Solver()
-        s.set("timeout", timeout_ms)
+        s.set("timeout", min(timeout_ms, 2500))
         for h in ob.hyps:
             s.add(h)
         s.add(z3.Not(ob.goal))
@@ -356,7 +356,15 @@ def run_unit(modname, target, label, timeout_ms=10000, replay_dir=None, prop="C?
             if ob.detail:
                 rec["detail"] = ob.detail
             if ob.status == "refuted":
-                rec.update(_replay_refuted(eng, contract, config, ob, label, replay_dir, prop))
+                nrep = getattr(eng, "_replayed", 0)
+                if nrep >= 3 and getattr(eng, "_confirmed", 0) >= 1:
+                    rec["confirmed"] = False
+                    rec["replay_error"] = "replay skipped: this unit already has %d replayed counterexample(s)" % eng._confirmed
+                else:
+                    eng._replayed = nrep + 1
+                    rec.update(_replay_refuted(eng, contract, config, ob, label, replay_dir, prop))
+                    if rec.get("confirmed"):
+                        eng._confirmed = getattr(eng, "_confirmed", 0) + 1
             elif ob.status == "unknown":
                 # undecided by the solvers: bounded native search for a failing input (never maps
                 # 'unknown' itself to a violation)
